@@ -66,6 +66,7 @@ CAT = {
     'req_dupmethod': [B(':method', 'GET')] + req(),
     'req_latepseudo': [B(':method', 'GET'), B(':scheme', 'https'), B(':authority', 'a.example'), B('x-k', 'v1'),
                        B(':path', '/')],
+    'req_lateauth': [B(':method', 'GET'), B(':scheme', 'https'), B(':path', '/'), B('x-k', 'v1'), B(':authority', 'a.example')],
     'req_custompseudo': req(extra=[]) [:3] + [B(':foo', 'x'), B(':path', '/')],
     'req_status': req() + [],
     'resp_method': [B(':status', '200'), B(':method', 'GET')],
